@@ -371,10 +371,17 @@ func (c *Conn) Close() error {
 	}
 	c.closed = true
 	c.wmu.Unlock()
+	// like crypto/tls: the close-notify alert is written under a five second write deadline, and
+	// a failure to write it is what Close reports (after closing the transport)
+	var alertErr error
 	if c.hsDone && c.hsErr == nil {
-		c.raw.Write([]byte{'C', 0, 0}) // close_notify, best effort
+		c.raw.SetWriteDeadline(time.Now().Add(5 * time.Second))
+		_, alertErr = c.raw.Write([]byte{'C', 0, 0})
 	}
-	return c.raw.Close()
+	if err := c.raw.Close(); err != nil {
+		return err
+	}
+	return alertErr
 }
 
 func (c *Conn) CloseWrite() error {
